@@ -102,6 +102,10 @@ def classify_line(line: str):
     return ("inst", addr, text)
 
 
+INSTRUCTION_PREFIXES = {"data16", "data32", "addr16", "addr32", "lock", "rep", "repz", "repe", "repnz", "repne", "cs", "ds", "es",
+                        "ss", "fs", "gs", "bnd", "notrack", "xacquire", "xrelease", "wait", "fwait"}
+
+
 def expected_instruction(addr: str, text: str):
     """Specification of what an instruction line contributes, for lines of the simple
     shape 'mnemonic[ +operands][ <annotation>|# comment]' (no instruction prefixes).
@@ -116,6 +120,8 @@ def expected_instruction(addr: str, text: str):
     mn = toks[0]
     if mn == "(bad)":
         mn = "bad"
+    if mn in INSTRUCTION_PREFIXES or mn.startswith("rex"):
+        return None    # 'lock cmpxchg ...', 'data16 daa', 'rex.W nop': which token is "the" mnemonic is not specified
     if len(toks) == 1:
         return (addr, mn, ())
     ops_text = toks[1]
